@@ -99,7 +99,7 @@ P('C04', theorems=['Tcs.C04_atomic', 'Tcs.C04_ack_durable', 'Tcs.C04_ack_after_c
   owned={'av.kind', 'as.kind', 'http.status.av', 'http.status.as', 'http.headers.av', 'snap.accept', 'state.dump'},
   oracles=[O.o_c04],
   plan={'quick': [{'scen': 'crash', 'args': {}, 'n': 8}], 'thorough': [{'scen': 'crash', 'args': {'subsets': 10}, 'n': 60}, {'scen': 'crash', 'args': {'big': '1'}, 'n': 6}]})
-P('C17', theorems=['Tcs.C17_flag_over_env', 'Tcs.C17_resolve_ignores_env_when_flags', 'Tcs.C17_env_used_when_no_flag', 'Tcs.C17_defaults', 'Tcs.C17_listen_required', 'Tcs.C17_listen_all', 'Tcs.C17_allowlist_exact', 'Tcs.C17_wiring'], needs_binary=True,
+P('C17', theorems=['Tcs.C17_flag_over_env', 'Tcs.C17_resolve_ignores_env_when_flags', 'Tcs.C17_env_used_when_no_flag', 'Tcs.C17_defaults', 'Tcs.C17_listen_required', 'Tcs.C17_listen_all', 'Tcs.C17_allowlist_exact', 'Tcs.C17_wiring', 'Tcs.C17_listen_all_or_nothing'], needs_binary=True,
   owned={'cfg.start', 'cfg.listen', 'cfg.dir', 'cfg.restart', 'http.status', 'http.urgency', 'http.headers'},
   oracles=[O.o_c17],
   plan={'quick': [{'scen': 'py:c17', 'args': {}, 'n': 24, 'shards': 8}], 'thorough': [{'scen': 'py:c17', 'args': {}, 'n': 300, 'shards': 12}]})
